@@ -22,8 +22,8 @@ import (
 // Req is one request of a scenario: a command name and argument tokens (sent
 // as an array of bulk strings), or a raw frame sent verbatim.
 type Req struct {
-	Cls   string          `json:"cls"`   // class annotation, passed through to the trace
-	Name  string          `json:"name"`  // command name as sent (any letter case)
+	Cls   string          `json:"cls"`  // class annotation, passed through to the trace
+	Name  string          `json:"name"` // command name as sent (any letter case)
 	Args  []Tok           `json:"args"`
 	Frame []int           `json:"frame"` // if present: sent instead of name/args
 	Meta  json.RawMessage `json:"meta"`  // passed through
